@@ -131,3 +131,8 @@ def _mixed_modes_in_slot(v, case):
     back = _backward_closure(case)
     nb = sum(1 for p in tasks if p in back)
     return 0 < nb < len(tasks)
+
+
+@predicate("foreign_edge_inside_slot")
+def _foreign_edge_inside_slot(v, case):
+    return bool(v.data.get("foreign_edge_inside"))
